@@ -149,10 +149,13 @@ def recursion_typestate(C, R, er):
                 "recursive": A.Struct(IR + "Recursive", {"depth": depth, "coerce_to": S.some("CoT") if co else S.none()}),
                 "iterator": IterState("ctx", "FromT"),
             }
-            if set(names) != set(vals):
-                R.fail("r5", "anchor:params", where, "expand_recursive_edge's parameters changed (%s): update the typestate model" % names)
-                return
-            A.Interp(C, I, max_steps=200000).call_fn(er, [vals[p] for p in names])
+            # arguments are matched to parameters by type (the two IRVertex parameters by the from / to in their names), so a
+            # reordering or renaming of this private function's parameters is not an alarm
+            A.Interp(C, I, max_steps=200000).call_by_type(er, [
+                ("QueryCarrier", vals["carrier"]), ("IRQueryComponent", vals["component"]), ("name:_from", vals["expanding_from"]),
+                ("name:_to", vals["expanding_to"]), ("Eid", vals["edge_id"]), ("Arc<str>", vals["edge_name"]),
+                ("EdgeParameters", vals["edge_parameters"]), ("Recursive", vals["recursive"]), ("Iterator", vals["iterator"]),
+                ("&", vals["adapter"])])
             cases += 1
             nb = [x for x in log if x[0] == "neighbors"]
             if not nb and bad is None:
@@ -355,7 +358,7 @@ def run(ctx, R):
             if extra:
                 sup.insert("zz", T.mk_value(("Int64",)))
             ip = A.Interp(C, intrinsics=intr)
-            res = A.deref(ip.call_fn(mk, [edge_def, sup]))
+            res = A.deref(ip.call_by_type(mk, [("FieldDefinition", edge_def), ("BTreeMap", sup)]))
             n += 1
             want_err = set()
             want_val = None
